@@ -1,7 +1,7 @@
 (* C10 — a bad record is reported with its own record number and raw bytes. *)
 From Coq Require Import List Arith NArith ZArith.
-Require Import CU.model.Prim CU.model.Types CU.model.Codec CU.model.Block CU.model.Vbs CU.model.Iso CU.model.Ipm.
-Require Import CU.spec.FramingSpec CU.proofs.IpmProofs CU.proofs.IpmEvents.
+Require Import CU.model.Prim CU.model.Types CU.model.Codec CU.model.Block CU.model.Vbs CU.model.Iso CU.model.Ipm CU.model.Tools.
+Require Import CU.spec.FramingSpec CU.proofs.IpmProofs CU.proofs.IpmEvents CU.proofs.ToolsReport.
 Import ListNotations.
 
 Section C10.
@@ -54,12 +54,22 @@ Theorem C10_every_bad_record : forall blocked file rs evs tail,
   seen blocked file = frames rs ++ be32 0 ++ tail ->
   ievents B maxlen cfg cd file blocked = Ok evs.
 Proof. exact (c10_every_bad_record B Bpos maxlen maxlen_ok cfg cd). Qed.
+
+(* what the operator sees: a reading tool (mci_ipm_to_csv, mideu extract) that stops on the data error of record k has
+   delivered the records before it and prints 'Error detected in record k' — with the three theorems above, k is the
+   record that is actually wrong, for framing-level and message-level faults alike *)
+Theorem C10_operator_message : forall blocked file ds k ctx,
+  iread_all B maxlen cfg cd file blocked = Ok (ds, ErrData (S k) ctx) ->
+  tool_read B maxlen cfg cd blocked file
+  = Ok (ds, Some (Some (error_prefix ++ str_of_N (N.of_nat (S k))))).
+Proof. exact (c10_operator_message B maxlen cfg cd). Qed.
 End C10.
 
 Print Assumptions C10_message_level.
 Print Assumptions C10_truncated.
 Print Assumptions C10_oversize.
 Print Assumptions C10_every_bad_record.
+Print Assumptions C10_operator_message.
 
 (* a concrete run (B = 3, maximum record length 100, one LLVAR element, latin_1): the second record's LLVAR length
    prefix is "0x" — record 1 is delivered, then the data error names record 2 and carries its 4 + 25 raw bytes;
@@ -90,4 +100,9 @@ Example C10_example_several :
     = Ok [EvErr 1 (frame bad); EvRec d; EvErr 3 (frame bad)]
   | None => False
   end.
+Proof. vm_compute. reflexivity. Qed.
+
+(* the operator line for record 12: "Error detected in record 12" *)
+Example C10_example_operator_line :
+  error_line 12 = Some (map N.of_nat [69;114;114;111;114;32;100;101;116;101;99;116;101;100;32;105;110;32;114;101;99;111;114;100;32;49;50]).
 Proof. vm_compute. reflexivity. Qed.
